@@ -2,6 +2,7 @@ import Vata.Lang
 import Vata.Proofs.SimModel
 import Vata.Proofs.TrimModel
 import Vata.Proofs.PropAux
+import Vata.Proofs.Equivariance
 /-!
 # C05 – Reduce preserves the language and never grows the automaton
 
@@ -67,12 +68,46 @@ theorem C05_never_grows (A : TA) (h : Nat → Nat) :
 example : (removeUnreachable (reindex SimModel.exH SimModel.exA)).states = [0, 2] ∧ SimModel.exA.states = [0, 1, 2, 3, 4] := by
   decide
 
+/-- the size of the quotient: when the collapse map is a quotient projection (`IsQuotProj`: it sends every state to a
+simulation-equivalent state *and* equivalent states to the same state) the result has at most as many states as there
+are classes of downward-simulation equivalence (`simClasses A`, computed by picking representatives with a fold over
+`A.states`), which is at most the number of states; and the size does not depend on which representatives are picked -/
+theorem C05_quotient_size (A : TA) (h h' : Nat → Nat) (hh : IsQuotProj A h) (hh' : IsQuotProj A h') :
+    (removeUnreachable (reindex h A)).states.length ≤ simClasses A ∧ simClasses A ≤ A.states.length ∧
+    (removeUnreachable (reindex h' A)).states.length = (removeUnreachable (reindex h A)).states.length ∧
+    (removeUnreachable (reindex h' A)).rules.length = (removeUnreachable (reindex h A)).rules.length :=
+  ⟨reduce_states_le_simClasses A h hh.2, simClasses_le_states A,
+   (reduce_size_choice_independent A h h' hh hh').1, (reduce_size_choice_independent A h h' hh hh').2⟩
+
+example : IsQuotProj SimModel.exA (repOf SimModel.exA) := repOf_isQuotProj _
+example : simClasses SimModel.exA = 3 ∧ SimModel.exA.states.length = 5 ∧
+    (removeUnreachable (reindex (repOf SimModel.exA) SimModel.exA)).states = [0, 2] := by decide
+-- "equivalent states to the same state" is needed for the bound: the identity satisfies the hypothesis of
+-- `C05_reduce_lang` but keeps 4 states, more than the 3 classes
+example : (∀ q, q ∈ SimModel.exA.states → (q, id q) ∈ downSimRef SimModel.exA ∧ (id q, q) ∈ downSimRef SimModel.exA) ∧
+    (removeUnreachable (reindex id SimModel.exA)).states.length = 4 := by decide
+
+/-- an executable quotient projection exists: `repOf A q` is the first state of `A.states` equivalent to `q`; with it
+the model of `Reduce` is the closed term `reduceRef A`, which keeps the language, is bounded by the number of classes
+and commutes with every renaming that is injective on the states -/
+theorem C05_canonical_reduce (A : TA) :
+    IsQuotProj A (repOf A) ∧ LangEq (reduceRef A) A ∧ (reduceRef A).states.length ≤ simClasses A ∧
+    ∀ f, InjOnStates f A → reduceRef (reindex f A) = reindex f (reduceRef A) ∧ simClasses (reindex f A) = simClasses A :=
+  ⟨repOf_isQuotProj A, reduceRef_lang A, reduceRef_states_le_simClasses A,
+   fun f hf => ⟨reduceRef_reindex_eq f A hf, simClasses_equivariant f A hf⟩⟩
+
+example : List.map (repOf SimModel.exA) [0, 1, 2, 3, 4] = [0, 0, 2, 2, 4] ∧ InjOnStates EqvEx.exF SimModel.exA :=
+  ⟨by decide, EqvEx.exF_inj_simA⟩
+example : (reduceRef (reindex EqvEx.exF SimModel.exA)).states = [40, 26] := by decide
+
 /-!
 ## not yet proved
 
 * That the collapse map the C++ derives (`RestrictToSymmetric` + `GetQuotientProjection` on the relation returned by
-  `ComputeSimulation`) satisfies the hypothesis `hh` is not a theorem about a model of these two functions; it is the
-  conjunction of C04 (the relation is `downSimRef A`) with the evident property of a quotient projection.
+  `ComputeSimulation`) satisfies the hypothesis `hh` (and is a quotient projection, `IsQuotProj`) is not a theorem about
+  a model of these two functions; it is the conjunction of C04 (the relation is `downSimRef A`) with the evident
+  property of a quotient projection.  What is proved is that such a map exists and is computable (`repOf`,
+  `C05_canonical_reduce`) and that the sizes do not depend on the choice (`C05_quotient_size`).
 * The rule count is stated for rule *lists* (`List.length`); for the set semantics of the C++ ("number of distinct
   rules") it gives the claim when the input list has no duplicates, the statement with `eraseDups` on both sides is not
   proved.
